@@ -21,8 +21,8 @@ ASSUMPTIONS = [
 ]
 MANIFEST = {'text': 'structural necessary conditions for window delivery: the filtered index is never consulted for a stream without active filters, a window change resets both ranges consistently and renews the id, '
                     'and the sender advances its sent-range exactly to the end of what it sent.'
-                    ' Added: search paging continuation equals the loop counter advanced exactly once per examined element; the index builder marks as processed exactly what it filtered; time lookups use partition_point with a strict predicate, binary_search only on unique keys. Added: lookups return the position found by the search primitive unmodified (no clamp / min / arithmetic), also through position helpers.',
-            'technique': 'static analysis: who-may-read + dominating-guard (control dependence) check, store pairing, must-pass-through on the CFG'}
+                    ' Added: search paging continuation equals the loop counter advanced exactly once per examined element; the index builder marks as processed exactly what it filtered; time lookups use partition_point with a strict predicate, binary_search only on unique keys. Added: lookups return the position found by the search primitive unmodified (no clamp / min / arithmetic), also through position helpers. Added: every field of a binary message sent derives from the message at that stream position only (no field of a previously built output message). Added: chunked search paging continues behind the last reported match.',
+            'technique': 'static analysis: who-may-read + dominating-guard (control dependence) check, store pairing, must-pass-through on the CFG Added: filters_active takes into account every filter kind that match_filters decides on.'}
 
 SC = 'adlt::utils::remote_utils::StreamContext'
 
@@ -137,8 +137,13 @@ def run(F, chk):
     check_lookup_primitives(F, G11)
     G14 = chk.rule('G14', 'lookups return the position found by the search primitive unmodified (no clamp / min / arithmetic between the search and the reply)')
     check_lookup_result_unmodified(F, G14)
+    G16 = chk.rule('G16', 'every field of a binary message sent to the client derives from the message at that stream position only (never from a previously built output message)')
+    check_bin_msg_fields(F, G16)
     G8 = chk.rule('G8', 'index builder: the processed marker advances exactly to the end of what was filtered')
     check_builder_progress(F, G8)
+    G17 = chk.rule('G17', 'a stream counts as filtered (filters_active) whenever any filter kind that match_filters decides on is present: the kinds read by StreamContext::from cover the kinds read by match_filters')
+    import c12
+    c12.check_active_shortcut(F, G17)      # shared with C12 G10
 
 
 FMT_SINK = re.compile(r'^core::fmt::rt::Argument::<.*>::new_|^core::fmt::Arguments|^std::fmt::Arguments')
@@ -335,6 +340,9 @@ def check_paging(F, G7):
         rl = range_loop_form(b, cfg, E, E2, loops) if counter is None else None
         if counter is None and rl is None:
             continue
+        if counter is not None and chunked_form(F, b, cfg, E2, counter, hd, loops, G7):
+            n += 1
+            continue
         elem = None
         fetch_blocks = set()
         if rl is not None:
@@ -496,6 +504,52 @@ def check_paging(F, G7):
     G7.floor('search functions with an examination loop', n, 1)
 
 
+def chunked_form(F, b, cfg, E2, counter, hd, loops, G7):
+    """form C: the stream is examined chunk-wise (`(i..chunk_end)` handed to a parallel filter) and the counter jumps:
+    `i = chunk_end` after a chunk, and `i = matches[K] + 1` when the chunk yielded more than wanted and `matches` is cut to T
+    entries.  Then i is the first unexamined-or-unreported position iff K + 1 == T (the last *kept* match).  Returns True if the
+    function has this form (verdict registered in G7), False otherwise."""
+    import linform
+    lbody = loops[hd]
+    cl = b.locals_named(counter)
+    jumps = []
+    ends = []
+    for blk_i in lbody:
+        for s in b.blocks[blk_i].stmts:
+            if s.k == 'assign' and s.place.is_local and s.place.l in cl:
+                e = E2.rvalue(s.rv)
+                if isinstance(e, tuple) and e[0] == 'bin' and e[1] == 'Add' and e[3] == ('const', 1) and 'Index::index(' in show(e[2]):
+                    jumps.append((blk_i, s, e[2]))
+                elif e != ('bin', 'Add', ('place', counter), ('const', 1)):
+                    ends.append((blk_i, s, e))
+    if not jumps:
+        return False
+    G7.fn(b.path)
+    L = linform.Lin(F, b, cfg)
+    for (bi, s, src) in jumps:
+        G7.sites += 1
+        K = None
+        vec = None
+        for x in walk(src):
+            if isinstance(x, tuple) and x and x[0] == 'call' and x[1].endswith('Index::index') and len(x[2]) == 2:
+                vec, K = x[2][0], x[2][1]
+        T = None
+        for y in lbody:
+            t = b.blocks[y].term
+            if t.k == 'call' and re.search(r'Vec::<T, A>::truncate$', t.callee.path) and (cfg.dominates(bi, y) or cfg.dominates(y, bi) or y == bi):
+                T = E2.operand(t.args[1])
+        if K is None or T is None:
+            G7.violation(('continuation-skips', b.path, 'chunk-jump'), 'search paging (chunked): the counter `%s` jumps to %s + 1 at %s but the result vector is not cut in the same step' % (counter, show(src)[:50], b.loc(s.sp)), where=b.loc(s.sp))
+            continue
+        lk, lt = L.lin(K, at=bi), L.lin(T, at=bi)
+        if linform.add(lk, {1: 1}) == lt:
+            G7.ok(sample={'function': b.path, 'counter': counter, 'form': 'chunked', 'jump': 'last kept match + 1', 'kept': linform.fmt(lt)})
+        else:
+            G7.violation(('continuation-skips', b.path, 'chunk-jump'), 'search paging (chunked): after a chunk with more matches than wanted the results are cut to %s entries but the counter `%s` continues behind match number %s (+1): '
+                         'the next page starts behind a match that was never reported (or re-reports one)' % (linform.fmt(lt), counter, linform.fmt(lk)), where=b.loc(s.sp))
+    return True
+
+
 def range_loop_form(b, cfg, E, E2, loops):
     """`for pos in start..end { .. cont = pos + 1 .. }`: {'head', 'elem' (name of pos), 'cont' (name), 'fetch' (blocks calling next), 'start'}"""
     for h, body_ in sorted(loops.items(), key=lambda x: -len(x[1])):
@@ -567,8 +621,60 @@ def check_builder_progress(F, G8):
                 if isinstance(r, tuple) and r[0] == 'agg' and r[1].endswith('Range::Range') and len(r[2]) == 2:
                     ends.append(r[2][1])
                     end_sites.append((r[2][1], blk.i))
+    # a chunk filtered by a private helper that returns (matches, new marker): the helper is judged by the same rule on the
+    # marker component it returns, and a store of that component is then as good as the helper's own definitions
+    faithful = {}
+    n_helper_defs = 0
+    for blk in b.calls():
+        t = blk.term
+        H = F.get(t.callee.resolved) if t.callee.resolved else F.get(t.callee.path)
+        if H is None or H.kind == 'closure' or H.crate != 'lib' or H.path == b.path or not H.ret_type().startswith('('):
+            continue
+        hm = ho = None
+        for i, a in enumerate(t.args):
+            ea = E.operand(a)
+            while isinstance(ea, tuple) and ea[0] == 'ref':
+                ea = ea[1]
+            if isinstance(ea, tuple) and ea[0] == 'place' and all(p_ == '*' for p_ in ea[2:]):
+                ea = ('place', ea[1])
+            if ea == ('place', msgs_param):
+                hm = H.name_of(i + 1) or 'arg%d' % (i + 1)
+            if ea == ('place', off_param):
+                ho = H.name_of(i + 1) or 'arg%d' % (i + 1)
+        if hm is None or ho is None:
+            continue
+        hcfg = CFG(H)
+        hE = ExprBuilder(hcfg, fold_named=True)
+        hends = []
+        for hb in H.calls():
+            ht = hb.term
+            if ht.callee.path.endswith('::index') and len(ht.args) > 1 and hm in show(hE.operand(ht.args[0])):
+                r = hE.operand(ht.args[1])
+                if isinstance(r, tuple) and r[0] == 'agg' and r[1].endswith('Range::Range') and len(r[2]) == 2:
+                    hends.append((r[2][1], hb.i))
+        ok_all = bool(hends)
+        ndefs = 0
+        for (bi_, si_, d_) in hcfg.defs.get(0, []):
+            if si_ == 'call' or d_.rv['k'] != 'agg' or d_.rv.get('ak') != 'tuple':
+                ok_all = False
+                continue
+            for o in d_.rv['ops']:
+                oo = Operand(o)
+                if (oo.ty or '') != 'usize':
+                    continue
+                ndefs += 1
+                e = hE.operand(oo)
+                good = isinstance(e, tuple) and e[0] == 'bin' and e[1] == 'Add' and e[2] == ('place', ho) and any(e[3] == en and hcfg.dominates(eb, bi_) for (en, eb) in hends)
+                good = good or (not show(e).startswith('Add(') and from_matcher_result(F, e, params=[H.name_of(i) or 'arg%d' % i for i in range(1, H.arg_count + 1)]))
+                if not good:
+                    ok_all = False
+        if ok_all and ndefs:
+            faithful[H.path] = ndefs
+            ends += [en for (en, _b) in hends]
+            n_helper_defs += ndefs
+            G8.fn(H.path)
     G8.floor('slices of the new messages handed to the matcher', len(ends), 2)
-    n = 0
+    n = n_helper_defs
     for blk in b.blocks:
         if blk.cleanup:
             continue
@@ -594,6 +700,8 @@ def check_builder_progress(F, G8):
                     se = show(e)
                     if not ok and not se.startswith('Add(') and from_matcher_result(F, e):
                         ok = 'index of the first unwanted match taken from the matcher result'
+                    if not ok and isinstance(e, tuple) and e[0] == 'proj' and isinstance(e[1], tuple) and e[1][0] == 'call' and e[1][1] in faithful:
+                        ok = 'marker component returned by %s, every definition of which is offset + end of the chunk it filtered or an element of the matcher result' % e[1][1].split('::')[-1]
                     if ok:
                         G8.ok(sample={'store_at': b.loc(s.sp), 'value': se[:110], 'why': ok})
                     else:
@@ -603,7 +711,7 @@ def check_builder_progress(F, G8):
     G8.floor('progress stores under filters_active in the index builder', n, 3)
 
 
-def from_matcher_result(F, e):
+def from_matcher_result(F, e, params=()):
     """is `e` an element of the index vector returned by the matcher: Index::index(&<call of a closure / crate function
     returning Vec<usize>>, ..)"""
     for x in walk(e):
@@ -617,6 +725,13 @@ def from_matcher_result(F, e):
             if isinstance(src, tuple) and src[0] == 'call':
                 if src[1] in ('std::ops::Fn::call', 'std::ops::FnMut::call_mut') and '{closure#' in show(src):
                     return True
+                if src[1] in ('std::ops::Fn::call', 'std::ops::FnMut::call_mut') and params and src[2]:
+                    # the matcher handed in as a generic parameter of a helper
+                    f_ = src[2][0]
+                    while isinstance(f_, tuple) and (f_[0] == 'ref' or (f_[0] == 'proj' and len(f_) == 2)):
+                        f_ = f_[1]
+                    if isinstance(f_, tuple) and f_[0] == 'place' and f_[1] in params:
+                        return True
                 H = F.get(src[1])
                 if H is not None and H.ret_type().startswith('std::vec::Vec<usize'):
                     return True
@@ -786,3 +901,44 @@ def check_lookup_result_unmodified(F, G14):
             else:
                 G14.ok(sample={'function': b.path, 'returned_position': show(e)[:90], 'modified_after_search': False})
     G14.floor('returned positions of the lookup functions', n, 4)
+
+
+# ---------------------------------------------------------------------------------------------
+# G16: an output message is built from its own input message
+
+def check_bin_msg_fields(F, G16):
+    """"each delivered with index, times, ids, counter and payload text equal to the file's": the BinDltMsg for stream position i is
+    built from all_msgs[idx(i)] alone.  Backward data provenance of every operand of a BinDltMsg construction in the remote
+    module: it must contain no read of a field of another BinDltMsg (text / ids copied over from the previous output
+    message "because it is the same anyway"), and the payload text must stem from DltMessage::payload_as_text."""
+    from prov import Prov, calls_in
+    n = 0
+    for b in F.order:
+        if b.crate != 'bin' or not b.path.startswith('adlt_bin::remote::') or '::tests::' in b.path:
+            continue
+        cfg = pr = None
+        for blk in b.blocks:
+            if blk.cleanup:
+                continue
+            for s in blk.stmts:
+                if not (s.k == 'assign' and s.rv['k'] == 'agg' and (s.rv.get('adt') or '').endswith('::BinDltMsg')):
+                    continue
+                cfg = cfg or CFG(b)
+                pr = pr or Prov(cfg)
+                n += 1
+                G16.fn(b.path)
+                fields = s.rv.get('fields', [])
+                bad = None
+                for nm, o in zip(fields, s.rv['ops']):
+                    G16.sites += 1
+                    toks = pr.operand(Operand(o), at=blk.i)
+                    if any(tk[0] == 'fld' and tk[1].endswith('::BinDltMsg') for tk in toks):
+                        bad = (nm, 'a field of another BinDltMsg')
+                    if nm == 'payload_as_text' and not any(c.endswith('DltMessage::payload_as_text') for c in calls_in(toks)):
+                        bad = bad or (nm, 'something other than DltMessage::payload_as_text of the message')
+                if bad:
+                    G16.violation(('output-built-from-other-output', b.closure_of or b.path, bad[0]), 'the binary message built at %s takes `%s` from %s: a message can be delivered with the data of another one (e.g. the text decoded for the previous message with the other byte order)' %
+                                  (b.loc(s.sp), bad[0], bad[1]), where=b.loc(s.sp))
+                else:
+                    G16.ok(sample={'built_at': b.loc(s.sp), 'fields': len(fields), 'each_from': 'the message at this stream position'})
+    G16.floor('BinDltMsg constructions in the remote module', n, 1)
